@@ -159,12 +159,41 @@ static void describe_esp(uint64_t idx, FILE *f) {
     fprintf(f, "\"events\":[%llu],\"told_length\":%zu,\"image\":", (unsigned long long)idx, L); shape_json(f, s);
 }
 
+/* hello: idx -> one interface attribute tuple; a topology and a quick Discover are answered (Hello assembly) under ASan/UBSan.
+ * characteristics word {0, every single bit, all ones} (18) x {wired, wireless} x machine-name length {0,1,31,32,33,63} x
+ * SSID length {0,1,31,32,33,40} x getters {all answer, BSSID fails, all but the hardware address fail} x link speed / ifType extremes */
+#define NHELLO (18 * 2 * 6 * 6 * 3 * 2)
+static void hello_tuple(uint64_t idx, int *fl, int *wifi, int *nl, int *sl, int *gf, int *ex) {
+    static const int NL[6] = {0, 1, 31, 32, 33, 63}, SL[6] = {0, 1, 31, 32, 33, 40};
+    *ex = (int)(idx % 2); idx /= 2; *gf = (int)(idx % 3); idx /= 3; *sl = SL[idx % 6]; idx /= 6; *nl = NL[idx % 6]; idx /= 6; *wifi = (int)(idx % 2); idx /= 2; *fl = (int)idx;
+}
+static void exec_hello(uint64_t idx) {
+    int fl, wifi, nl, sl, gf, ex; hello_tuple(idx, &fl, &wifi, &nl, &sl, &gf, &ex);
+    vf_world_init(MTU, wifi, (uint8_t)A.fill);
+    vf_iface *fi = &W.iface[0];
+    fi->flags = fl == 0 ? 0 : fl == 17 ? 0xFFFFFFFFu : (1u << (fl - 1));
+    for (int i = 0; i < nl; i++) W.host.hostname[i] = (uint8_t)('a' + i % 26); W.host.hostname_len = (size_t)nl;
+    for (int i = 0; i < sl; i++) fi->ssid[i] = (uint8_t)('A' + i % 26); fi->ssid_len = (size_t)sl;
+    if (ex) { fi->speed = 0xFFFFFFFFu; fi->iftype = 0xFFFFFFFFu; fi->rate = 0xFFFF; fi->rssi = -128; fi->phy = 0xFF; }
+    fi->fail = gf == 1 ? VF_G_BSSID : gf == 2 ? ~(uint32_t)VF_G_MAC : 0; W.host.fail = gf == 2 ? 0xFFFFFFFFu : 0;
+    OWN = W.iface[0].mac;
+    free(recvbuf); recvbuf = malloc(MTU); memset(recvbuf, (int)A.fill, MTU);
+    drv = 0; amap = init_automata_mapping(); asess = init_automata_session();
+    pev d0 = ev_discover(0, ST_M1, ST_M1, 0x1234, 1), d1 = ev_discover(1, ST_M1, ST_BR, 0x4321, 2);
+    vf_trace_clear(); deliver_pev(&d0); deliver_pev(&d1);
+    if ((idx & 0x1f) == 0) vf_outcome(vf_trace_hash());
+}
+static void describe_hello(uint64_t idx, FILE *f) {
+    int fl, wifi, nl, sl, gf, ex; hello_tuple(idx, &fl, &wifi, &nl, &sl, &gf, &ex);
+    fprintf(f, "\"events\":[%llu],\"characteristics_case\":%d,\"wireless\":%d,\"machine_name_len\":%d,\"ssid_len\":%d,\"getter_failures\":%d,\"extreme_numbers\":%d", (unsigned long long)idx, fl, wifi, nl, sl, gf, ex);
+}
+
 int main(int argc, char **argv) {
     vf_parse_args(argc, argv, "C01");
     vf_world_init(A.mtu, A.wifi, (uint8_t)A.fill); rich_platform();
     MTU = A.mtu; OWN = W.iface[0].mac;
     drv = !strcmp(A.mode, "darwin") ? 1 : !strcmp(A.mode, "esp32") ? 2 : 0;
-    int flood = !strcmp(A.mode, "flood"); int two = !strcmp(A.mode, "linux2");
+    int flood = !strcmp(A.mode, "flood"); int two = !strcmp(A.mode, "linux2"); int hello = !strcmp(A.mode, "hello");
     build_full();
     NPRE = A.a > 0 ? (int)A.a : (vf_thorough() ? 5 : 3);
     NF1 = A.b > 0 ? (int)A.b : (vf_thorough() ? 40 : 8);
@@ -173,7 +202,7 @@ int main(int argc, char **argv) {
     recvbuf = malloc(MTU);
     double t0 = vf_now_s();
     if (two) { mtu2[0] = MTU; mtu2[1] = MTU == 576 ? 1500 : 576; W.iface[1].mtu = mtu2[1]; recv2[0] = malloc(mtu2[0]); recv2[1] = malloc(mtu2[1]); }
-    fr_cfg fc = { .exec = two ? exec_two : flood ? exec_flood : drv == 2 ? exec_esp : exec_main, .describe = two ? describe_two : flood ? describe_flood : drv == 2 ? describe_esp : describe_main, .sig_prefix = "memory-safety" };
+    fr_cfg fc = { .exec = hello ? exec_hello : two ? exec_two : flood ? exec_flood : drv == 2 ? exec_esp : exec_main, .describe = hello ? describe_hello : two ? describe_two : flood ? describe_flood : drv == 2 ? describe_esp : describe_main, .sig_prefix = "memory-safety" };
     fr_stats st;
     if (A.replay) {
         FILE *f = fopen(A.replay, "r"); static char buf[1 << 16]; size_t n = f ? fread(buf, 1, sizeof buf - 1, f) : 0; buf[n] = 0; if (f) fclose(f);
@@ -184,13 +213,15 @@ int main(int argc, char **argv) {
         return vf_nviolations() ? 1 : 0;
     }
     uint64_t total, lo, hi;
-    if (flood) { total = (uint64_t)NFLOOD_MTU * 6; lo = 0; hi = total; }
+    if (hello) { total = NHELLO; lo = 0; hi = total; }
+    else if (flood) { total = (uint64_t)NFLOOD_MTU * 6; lo = 0; hi = total; }
     else if (two) { total = 2ull * (uint64_t)(NF1 + 1) * (uint64_t)NFULL; lo = total * (uint64_t)A.part / (uint64_t)A.nparts; hi = total * (uint64_t)(A.part + 1) / (uint64_t)A.nparts; }
     else if (drv == 2) { NIMG = NFIRST + 40; total = (uint64_t)NIMG * (MTU + 1); lo = total * (uint64_t)A.part / (uint64_t)A.nparts; hi = total * (uint64_t)(A.part + 1) / (uint64_t)A.nparts; }
     else { total = (uint64_t)NPRE * (uint64_t)(NF1 + 1) * (uint64_t)NFULL; lo = total * (uint64_t)A.part / (uint64_t)A.nparts; hi = total * (uint64_t)(A.part + 1) / (uint64_t)A.nparts; }
     fr_run(&fc, lo, hi, &st);
     R.evaluations = st.executed; R.exhaustive = st.cap == NULL; R.cap_hit = st.cap;
-    if (two) vf_sample("two interfaces (MTU %zu and %zu) on one responder: (%d first frames + a one-descriptor Emit) on one interface, then each of %d second frames on the other, both orders; executions [%llu,%llu)", mtu2[0], mtu2[1], NF1, NFULL, (unsigned long long)lo, (unsigned long long)hi);
+    if (hello) vf_sample("Hello assembly: %d interface attribute tuples (characteristics word {0, each single bit, all ones} x wired/wireless x machine-name length {0,1,31,32,33,63} x SSID length {0,1,31,32,33,40} x getter failures {none, BSSID, all but the hardware address} x numeric extremes), a topology and a bridged quick Discover each, under ASan/UBSan", NHELLO);
+    else if (two) vf_sample("two interfaces (MTU %zu and %zu) on one responder: (%d first frames + a one-descriptor Emit) on one interface, then each of %d second frames on the other, both orders; executions [%llu,%llu)", mtu2[0], mtu2[1], NF1, NFULL, (unsigned long long)lo, (unsigned long long)hi);
     else if (flood) vf_sample("flood: %d MTUs (every residue mod 20 and 14, PPPoE, jumbo) x 6 see-list sizes around the QueryResp capacity x 2 rounds of [observations ; Query ; Query] under ASan/UBSan", NFLOOD_MTU);
     else if (drv == 2) vf_sample("esp32 entry: %d frame images x every told length 0..%zu, each handed over as a heap block of exactly that length", NIMG, MTU);
     else vf_sample("%s flavour: %d prefixes x (%d first frames + none) x %d second frames (per-opcode field-class products, all 256 opcodes), MTU %zu, receive buffer malloc(MTU) pre-filled with 0x%02x; executions [%llu,%llu) of %llu", drv ? "darwin" : "linux", NPRE, NF1, NFULL, MTU, A.fill, (unsigned long long)lo, (unsigned long long)hi, (unsigned long long)total);
